@@ -205,6 +205,16 @@ fn run_config(r: &mut Report, exe: &str, work: &str, seed: u64, k: u64, up: &Scr
             2 => vec![rng.pick(&pool).clone()],
             _ => (0..rng.urange(2, 3)).map(|_| rng.pick(&pool).clone()).collect(),
         };
+        // a forwarder's list may contain elements that are not addresses ("unknown", an obfuscated identifier, an address
+        // with a port): one list in four gets one in a position before the last, so the origin - the last element - stays
+        // an address and the expectation is unchanged (seeded C19-K)
+        let mut xff = xff;
+        if !xff.is_empty() && rng.chance(1, 4) {
+            let junk = *rng.pick(&["unknown", "_hidden", "10.1.2.3:5678", "[2001:db8::5]:80", "", "proxy.example"]);
+            let at = rng.usize(xff.len());
+            xff.insert(at, junk.to_string());
+            r.count("forwarded_lists_with_a_non_address_element", 1);
+        }
         let case = Case { src, route, xff, xff_spaces: rng.chance(1, 2), xff_case: rng.below(3) as u8 };
         let want = expect_for(&cfg, &case);
         r.eval();
@@ -411,5 +421,5 @@ pub fn main(args: &Args) {
         total.nontrivial(1);
         total.nontrivial(2);
     }
-    total.write(out, "the real humphrey server binary started from generated configurations: blacklist mode {block, forbidden} x list {empty, the client's address, other addresses, IPv4+IPv6 entries, several client addresses} x cache on/off, with file, directory, proxy (scripted upstream) and redirect routes, bound to 127.0.0.1 (every 8th configuration to [::1]); clients bound to chosen 127/8 source addresses (or ::1) send requests with and without X-Forwarded-For naming listed and unlisted addresses, with and without blanks after commas, in three header spellings. distinct = distinct (configuration, request); all are non-trivial (the answer is judged against the blacklist rule)", None, &["'on behalf of' = the origin as C02 defines it (last listed entry); a listed address appearing only in an earlier proxy position is not judged", "a dual-stack [::] listener (IPv4 peers seen as ::ffff:a.b.c.d) is not explored", "the readiness probe connects from 127.0.0.250, which is never listed"]);
+    total.write(out, "the real humphrey server binary started from generated configurations: blacklist mode {block, forbidden} x list {empty, the client's address, other addresses, IPv4+IPv6 entries, several client addresses} x cache on/off, with file, directory, proxy (scripted upstream) and redirect routes, bound to 127.0.0.1 (every 8th configuration to [::1]); clients bound to chosen 127/8 source addresses (or ::1) send requests with and without X-Forwarded-For naming listed and unlisted addresses, with and without blanks after commas, in three header spellings, one list in four with a non-address element (unknown, _hidden, address:port, empty, a host name) before its last element. distinct = distinct (configuration, request); all are non-trivial (the answer is judged against the blacklist rule)", None, &["'on behalf of' = the origin as C02 defines it (last listed entry); a listed address appearing only in an earlier proxy position is not judged", "a dual-stack [::] listener (IPv4 peers seen as ::ffff:a.b.c.d) is not explored", "the readiness probe connects from 127.0.0.250, which is never listed"]);
 }
